@@ -584,7 +584,8 @@ var planOnce = sync.OnceValue(func() *plan {
 	// wider ORs of one protocol (the challenge-splitting loops run more than once only from four branches on)
 	{
 		sc := schnorrCase(k)
-		for _, n := range []*niInst{orCaseN(sc, 4, 0).ni(), orCaseN(sc, 4, 3).ni(), orCaseN(sc, 5, 2).ni()} {
+		// … and a wide AND (more branches than any worker-pool bound a verifier might use)
+		for _, n := range []*niInst{orCaseN(sc, 4, 0).ni(), orCaseN(sc, 4, 3).ni(), orCaseN(sc, 5, 2).ni(), andCase(sc, 20).ni()} {
 			pl.all = append(pl.all, n)
 		}
 	}
@@ -658,6 +659,8 @@ func compOf[X sigma.Statement, W sigma.Witness, A sigma.Statement, S sigma.State
 		return andCase(c, 2).ni()
 	case "and3":
 		return andCase(c, 3).ni()
+	case "and20":
+		return andCase(c, 20).ni()
 	case "orL":
 		return orCase(c, 0).ni()
 	case "orR":
@@ -719,7 +722,7 @@ var interactiveOnce = sync.OnceValue(func() []*interactive {
 func interactiveInsts() []*interactive { return interactiveOnce() }
 
 func TestCheck(t *testing.T) {
-	engine.Rule("One honest proof per configuration (protocol x composition {plain, AND2, AND3, OR-left, OR-right; Schnorr: OR of 4 (witness first / last) and of 5 (witness in the middle); binary compositions of two DIFFERENT protocols (Schnorr|batch-Schnorr(2) in both orders, Schnorr|Okamoto): OR with the witness left / right, AND} x compiler {Fiat-Shamir, Fischlin, randomised Fischlin} x group; Paillier-based protocols: plain, fixed 512/1024/2048-bit test keys), produced with fixed deterministic randomness, then EVERY listed single edit, each alone: (context) 22 prover/verifier context pairs [same context in 8 histories = must verify; other session, sid field only, extra AppendBytes, extra AppendBytes AFTER the prover/verifier object was constructed on the context and before Prove/Verify, other prover-id label, cloned after an earlier ExtractBytes, sub-context: on the verifier's side and on the prover's side = must be rejected], replay on the advanced verifier context, other protocol name, other compiler, each statement component replaced by another valid one, proof of instance j for instance k; (proof) every CBOR-tree edit of the proof bytes: value bits of every leaf (quick EC/Fiat-Shamir: every bit; repeated Fischlin proofs and Paillier-sized proofs: LSB/middle/MSB or LSB with the index alphabet {0,1,mid,last-1,last} / {0,last} / {0} on arrays and maps longer than 8 - see the per-section notes), map-key and tag edits, swaps of same-kind leaves and of neighbouring array elements, drop / duplicate / blank (empty, null) of every component, array truncate / extend (null, empty string), the same extend / drop / swap applied to ALL sibling arrays of one length at once (parallel arrays of a repeated proof), re-wraps (array, tag 55799, byte string, non-minimal head, trailing byte, truncation), splice of the same leaf of another valid proof. A case is distinct by (configuration, edit description) and non-trivial when Verify ran on bytes different from the original. Sigma level: 4 challenges {0, 1, ff..ff, pattern} on ONE commitment: each response verifies, all 12 ordered challenge pairs go through the extractor (where exposed; per branch for compositions) and the result must satisfy ValidateStatement, cross-accepted responses must extract too, 4 simulator runs must verify. Interactive protocols (zk compiler over every selected sigma protocol; Paillier LP, LPDL): honest run accepted, then every edit of every message of the run (same edit alphabet) must end without the verifier accepting.")
+	engine.Rule("One honest proof per configuration (protocol x composition {plain, AND2, AND3, OR-left, OR-right; Schnorr: OR of 4 (witness first / last) and of 5 (witness in the middle), AND of 20; binary compositions of two DIFFERENT protocols (Schnorr|batch-Schnorr(2) in both orders, Schnorr|Okamoto): OR with the witness left / right, AND} x compiler {Fiat-Shamir, Fischlin, randomised Fischlin} x group; Paillier-based protocols: plain, fixed 512/1024/2048-bit test keys), produced with fixed deterministic randomness, then EVERY listed single edit, each alone: (context) 22 prover/verifier context pairs [same context in 8 histories = must verify; other session, sid field only, extra AppendBytes, extra AppendBytes AFTER the prover/verifier object was constructed on the context and before Prove/Verify, other prover-id label, cloned after an earlier ExtractBytes, sub-context: on the verifier's side and on the prover's side = must be rejected], replay on the advanced verifier context, other protocol name, other compiler, each statement component replaced by another valid one, proof of instance j for instance k; (proof) every CBOR-tree edit of the proof bytes: value bits of every leaf (quick EC/Fiat-Shamir: every bit; repeated Fischlin proofs and Paillier-sized proofs: LSB/middle/MSB or LSB with the index alphabet {0,1,mid,last-1,last} / {0,last} / {0} on arrays and maps longer than 8 - see the per-section notes), map-key and tag edits, swaps of same-kind leaves and of neighbouring array elements, drop / duplicate / blank (empty, null) of every component, array truncate / extend (null, empty string), the same extend / drop / swap applied to ALL sibling arrays of one length at once (parallel arrays of a repeated proof), re-wraps (array, tag 55799, byte string, non-minimal head, trailing byte, truncation), splice of the same leaf of another valid proof. A case is distinct by (configuration, edit description) and non-trivial when Verify ran on bytes different from the original. Sigma level (cheap protocols additionally: every one-byte and the empty challenge, simulated without a witness and assembled into a Fiat-Shamir proof, must be rejected): 4 challenges {0, 1, ff..ff, pattern} on ONE commitment: each response verifies, all 12 ordered challenge pairs go through the extractor (where exposed; per branch for compositions) and the result must satisfy ValidateStatement, cross-accepted responses must extract too, 4 simulator runs must verify. Interactive protocols (zk compiler over every selected sigma protocol; Paillier LP, LPDL): honest run accepted, then every edit of every message of the run (same edit alphabet) must end without the verifier accepting.")
 	engine.Assume("the proof randomness is one fixed deterministic stream per configuration (errgroup workers of sigand/sigor may interleave reads, so proof bytes can differ between processes; oracles never compare proof bytes across runs and edits are addressed by tree position)",
 		"/verif/mc/ref/cbor parses and re-encodes canonical CBOR losslessly (asserted on every proof/message before mutation)",
 		"exemption rule, decided mechanically: an accepted edit is the same proof iff Marshal(Unmarshal(edited)) == original bytes",
